@@ -123,11 +123,22 @@ private:
     bool operator==(const marked_idx& other) const noexcept { return this->_val == other._val; }
     bool operator!=(const marked_idx& other) const noexcept { return this->_val != other._val; }
 
+    static constexpr uint64_t max_index = (static_cast<uint64_t>(1) << 32) - 1;
+
   private:
-    static constexpr unsigned bits = 16;
+    // index and version tag share one 64-bit word
+    static constexpr unsigned bits = 32;
     static constexpr uint64_t val_mask = (static_cast<uint64_t>(1) << bits) - 1;
     uint64_t _val = 0;
   };
+
+  // head and tail index must be representable in marked_idx
+  static uint64_t check_size(uint64_t k, uint64_t num_segments) {
+    if (k == 0 || num_segments == 0 || num_segments > (marked_idx::max_index + 1) / k) {
+      throw std::invalid_argument("k * num_segments must be in the range [1, 2^32]");
+    }
+    return k * num_segments;
+  }
 
   template <bool Empty>
   bool find_index(uint64_t start_index, uint64_t& index, marked_value& old);
@@ -155,7 +166,7 @@ kirsch_bounded_kfifo_queue<T, Policies...>::kirsch_bounded_kfifo_queue(uint64_t 
     _k(k),
     _head(),
     _tail(),
-    _queue(new entry[k * num_segments]()) {}
+    _queue(new entry[check_size(k, num_segments)]()) {}
 
 template <class T, class... Policies>
 kirsch_bounded_kfifo_queue<T, Policies...>::~kirsch_bounded_kfifo_queue() {
